@@ -1090,7 +1090,7 @@ static void IRP_Cleanup(PInputTag PInp) {
 
     /* letzten Parameter sichern, wird evtl. noch fuer GetPos gebraucht!
        ... SaveAttr ist aber frei */
-    if (PInp->Processor == IRP_Processor) {
+    if ((PInp->Processor == IRP_Processor) && PInp->Params) {
         for (Lauf = PInp->Params; Lauf->Next; Lauf = Lauf->Next) { /* empty */
         }
         strmaxcpy(PInp->SaveAttr, Lauf->Content, STRINGSIZE);
